@@ -5,6 +5,7 @@ MPU file sink
 from __future__ import annotations
 
 import mmap
+import shutil
 from pathlib import Path
 from typing import Any
 
@@ -72,7 +73,7 @@ class MPUFileSink:
         dst = self._dst
         first, *rest = parts
         p1 = Path(first["Path"])
-        p1.rename(dst)
+        shutil.move(str(p1), str(dst))  # parts_base can be on a different filesystem
 
         with open(dst, "ab") as f:
             for part in rest:
